@@ -128,6 +128,15 @@ def judgeStep (i : Nat) (op : Op) (prev o : Obs) (relinked : Bool) : Option Stri
       -- successive numbered installs must go through: nothing but numbered runs there, runN untouched by the user
       if op == .install && prev.flat.isNone && !relinked && prev.runs.all (fun x => (numOfName x.1).isSome) then
         return some s!"op {i}: a numbered install was refused although the workflow holds only numbered runs"
+  -- runN keeps tracking: only the user (rmN / relink), the disappearance of its target, or a new install may
+  -- change it; in particular cleaning a run that is not the one runN points to leaves the link alone
+  let userOp := match op with | .rmRunN | .relink _ => true | _ => false
+  if !userOp then
+    match prev.runN with
+    | some t =>
+      if (o.runs.map (·.1)).contains t && o.runN != some t && !(isInstall && (o.ok || relinked)) then
+        return some s!"op {i}: runN pointed to {t}, which still exists, but now points to {o.runN.getD "nothing"}: runN no longer tracks the most recent run"
+    | none => pure ()
   -- runN, after every operation
   match o.runN with
   | none => pure ()
